@@ -333,6 +333,25 @@ static void enumerate(void) {
         mc_case_key(mc_hash(d, strlen(d), 0xc04d)); mc_nontrivial(); mc_feature("valid-dictionary-file");
         try_image(img.p, img.n, d); ref_buf_free(&img); ref_arena_free(&RA);
     }
+    /* strings that come from the caller and end up in error messages: a path that does not exist and a projected column name that is not in the schema, every length up to 1000;
+     * the error struct is an exact-size heap block, so a write behind it is reported */
+    mc_stage("caller-strings.every-length.error-struct-fenced");
+    { ref_buf img; ref_buf_init(&img); if (make_seed(0, &img)) mc_harness_error("seed"); uint8_t* x = mc_exact(img.p, img.n);
+      for (int len = 1; len <= 1000; len += (len < 200 || len > 420 ? 23 : 1)) for (int kind = 0; kind < 3; kind++) {
+          if (!mc_next()) continue;
+          mc_desc("c04:caller-string;kind=%s;length=%d", kind == 0 ? "missing-path-stdio" : kind == 1 ? "missing-path-mmap" : "missing-column-name", len); mc_case_key(mc_mix(0xc04c5, ((uint64_t)len << 2) | (uint64_t)kind)); mc_nontrivial(); mc_feature("caller-string");
+          char* str = malloc((size_t)len + 32); int k = snprintf(str, 32, "%s", kind < 2 ? "/nonexistent-dir/" : "col_"); if (k > len) k = len; memset(str + k, 'n', (size_t)(len - k)); str[len] = 0;
+          carquet_error_t* e = mc_exact(NULL, sizeof(carquet_error_t)); memset(e, 0, sizeof *e);
+          if (kind < 2) { carquet_reader_options_t o; carquet_reader_options_init(&o); o.use_mmap = kind == 1; carquet_reader_t* rd = carquet_reader_open(str, &o, e); if (rd) { mc_fail("caller-string.nonexistent-path-opened", "length %d", len); carquet_reader_close(rd); }
+              else if (e->code == CARQUET_OK || !memchr(e->message, 0, sizeof e->message)) mc_fail("error-contract.caller-string", "path of %d characters: code %d, message %sterminated", len, e->code, memchr(e->message, 0, sizeof e->message) ? "" : "not "); }
+          else { carquet_reader_t* rd = carquet_reader_open_buffer(x, img.n, NULL, e); if (!rd) mc_harness_error("seed 0 does not open");
+              carquet_batch_reader_config_t cfg; carquet_batch_reader_config_init(&cfg); const char* names[1] = { str }; cfg.column_names = names; cfg.num_column_names = 1; memset(e, 0, sizeof *e);
+              carquet_batch_reader_t* br = carquet_batch_reader_create(rd, &cfg, e); if (br) { mc_fail("caller-string.unknown-column-accepted", "length %d", len); carquet_batch_reader_free(br); }
+              else if (e->code == CARQUET_OK || !memchr(e->message, 0, sizeof e->message)) mc_fail("error-contract.caller-string", "column name of %d characters: code %d", len, e->code);
+              carquet_reader_close(rd); }
+          free(e); free(str);
+      }
+      free(x); ref_buf_free(&img); ref_arena_free(&RA); }
     mc_stage("families.nesting-depth.payload-free-counts");
     { ref_buf img; ref_buf_init(&img); if (make_seed(0, &img)) mc_harness_error("seed"); ref_file rf; if (ref_pq_read(&RA, img.p, img.n, &rf, 0)) mc_harness_error("seed0");
       static const long DEPTH[] = { 1, 31, 32, 33, 1000, 100000, 1000000 };
